@@ -1,7 +1,7 @@
 """C17 - Text table dumps reload to the same tree sequence (structural clauses)."""
 from __future__ import annotations
 
-from . import scopes, lib_py, lib_newick, lib_module, lib_order, lib_schema, lib_mem, lib_kind
+from . import scopes, lib_py, lib_newick, lib_module, lib_order, lib_schema, lib_mem, lib_kind, lib_kind4
 
 LEVEL = "other"
 EXPLANATION = ("Writer/reader column agreement between dump_text and the seven parse_* functions, header-driven token indexing, "
@@ -31,4 +31,5 @@ def run(ctx):
     lib_kind.py_unknown_time(ctx, py)
     lib_py.unused_params(ctx, py, mods=("text_formats", "trees"), only=scopes.py_scope("C17"))
     lib_kind.py_lints(ctx, py, mods=("text_formats", "trees"), only=scopes.py_scope("C17"))
+    lib_kind4.sort_last(ctx, py)
     lib_mem.c_lints(ctx, ctx.program(), scopes.lib_scope("C17"), tus=["tables"])
